@@ -10,7 +10,7 @@ PROPS = {
                      "C16_set_algebra_or", "C16_set_algebra_and", "C16_set_algebra_or_minus",
                      "C16_to_list_sorted_members", "C16_first_bit_set",
                      "C16_byte_level_entry_bytes", "C16_byte_level_spelling_unique", "C16_byte_fallback_hex"],
-        "rule": "trie cases: random vocabulary (duplicates, empty entries, prefix chains, long runs, "
+        "rule": "TokTrie lookup and decoding functions (prefix_token_id, all_prefixes, all_subtokens, has_extensions, token_id_at_bytes, decode / decode_ext / decode_raw / decode_raw_to_decode, special-token lookups, eos and singleton sets, all_tokens, sorted_tokens) against naive definitions over the word list (implementation-only); trie cases: random vocabulary (duplicates, empty entries, prefix chains, long runs, "
                 "special-marker tokens, sizes around multiples of 32) x random byte DFA x pre-pushed stack x "
                 "start prefixes; svob cases: random op sequences on 3 registers around word boundaries; "
                 "tokenizer descriptions synthesised offline: byte-level BPE tokenizer.json (all 256 alphabet entries in random order, random "
